@@ -289,6 +289,39 @@ pub fn eval_t3(f: &TDDFunction, rev: bool) -> T3 {
     })
 }
 
+/// Table through `eval` with hostile argument lists: variables whose value is unknown are
+/// omitted (documented: a decision node for a variable without a value takes the `unknown`
+/// branch), the others are passed in a rotated order and some of them twice (documented: the
+/// last value counts).
+pub fn eval_t3_sparse(f: &TDDFunction) -> T3 {
+    let n = f.with_manager_shared(|m, _| m.num_vars());
+    T3::from_fn(n, |i| {
+        let mut args: Vec<(u32, Option<bool>)> = Vec::new();
+        for k in 0..n {
+            let v = (k + i as u32) % n;
+            let val = opt3(digit(i, v));
+            match val {
+                None => {
+                    if (i + v as usize) % 3 == 0 {
+                        // explicitly unknown after a contradicting earlier value
+                        args.push((v, Some(true)));
+                        args.push((v, None));
+                    }
+                }
+                Some(b) => {
+                    if (i + v as usize) % 4 == 1 {
+                        args.push((v, Some(!b)));
+                    } else if (i + v as usize) % 4 == 2 {
+                        args.push((v, None));
+                    }
+                    args.push((v, Some(b)));
+                }
+            }
+        }
+        from_opt(f.eval(args))
+    })
+}
+
 fn mk_node<M>(m: &M, level: LevelNo, ch: [M::Edge; 3]) -> M::Edge
 where
     M: Manager<Terminal = TDDTerminal>,
@@ -1005,7 +1038,7 @@ pub fn random(ctx: &mut Ctx) {
         let n = if ctx.quick() { 3 + (run as u32 % 2) } else { 3 + (run as u32 % 3) };
         let threads = if run % 4 < 2 { 1 } else { 4 };
         let cache = *rng.pick(&[1usize, 8, 64, 1 << 12]);
-        let order = rng.perm(n as usize);
+        let mut order = rng.perm(n as usize);
         println!("@@{{\"t\":\"case\",\"case\":{}}}", crate::ctx::json_str(&format!("random run {run} n {n} order {order:?} threads {threads} cache {cache}")));
         let mref = tdd_setup(1 << 18, cache, threads, n, &order);
         let got = crate::kinds::current_order(&mref);
@@ -1030,6 +1063,12 @@ pub fn random(ctx: &mut Ctx) {
             });
             let et = eval_t3(&f, pool.len() % 2 == 0);
             ctx.check(et == it, "tdd:eval-vs-interp", || format!("{cfg}: {} eval {et} interp {it}", what()));
+            if pool.len() % 8 == 3 {
+                let st = eval_t3_sparse(&f);
+                ctx.check(st == it, "tdd:eval:omitted-or-repeated-arguments", || {
+                    format!("{cfg}: {}: eval with unknown variables omitted / values repeated gives {st}, interpretation {it}", what())
+                });
+            }
             // canonicity both ways, keyed on the interpreted table
             match by_table.get(&it) {
                 Some(h) => {
@@ -1138,6 +1177,32 @@ pub fn random(ctx: &mut Ctx) {
                     mref.with_manager_shared(|m| m.gc());
                     ctx.count("gcs", 1);
                 }
+                // reordering with 200 live functions (and dead nodes unless the gc above ran): every
+                // handle keeps its table, the structure stays reduced, rebuilt functions are identical
+                let mut req = rng.perm(n as usize);
+                if rng.chance(1, 3) {
+                    req.truncate(2);
+                }
+                let seq = rng.chance(1, 3);
+                mref.with_manager_exclusive(|m| if seq { oxidd_reorder::set_var_order_seq(m, &req) } else { oxidd_reorder::set_var_order(m, &req) });
+                let after = crate::kinds::current_order(&mref);
+                ctx.check(crate::mon::c08::consistent(&after, &req), "tdd:set_var_order:requested-relative-order", || format!("{cfg}: request {req:?} after {after:?}"));
+                order = after;
+                for (f, t) in pool.iter() {
+                    let it = interp_t3(f);
+                    if !ctx.check(it == *t, "tdd:set_var_order:handle-changed-function", || format!("{cfg}: new order {order:?}: {t} became {it}")) {
+                        break;
+                    }
+                }
+                let s = mref.with_manager_shared(|m| audit::structural(m, Rule::Tdd, &|_| false));
+                for (sig, w) in s.errs.iter().take(3) {
+                    ctx.violation(&format!("tdd:structure:{sig}"), format!("{cfg}: after set_var_order to {order:?}: {w}"));
+                }
+                for k in [0usize, pool.len() / 2, pool.len() - 1] {
+                    let g = build_direct(&mref, &pool[k].1, &order);
+                    ctx.check(g == pool[k].0, "tdd:set_var_order:rebuilt-function-differs-from-surviving-handle", || format!("{cfg}: new order {order:?}: {}", pool[k].1));
+                }
+                ctx.count("reorderings_with_live_nodes", 1);
             }
         }
         let s = mref.with_manager_shared(|m| audit::structural(m, Rule::Tdd, &|_| false));
